@@ -6,6 +6,7 @@
 #include <cstdio>
 #include <cstdint>
 #include <cstddef>
+#include <vector>
 #include "frontend.cpp"
 #include "backend.cpp"
 #include "backref.cpp"
@@ -23,7 +24,31 @@ typedef struct Block { FreeObject* bumpPtr; FreeObject* freeList; uint16_t alloc
 #define VERIF_BSR(n) (31u - (unsigned)__builtin_clz(n))
 #include "sizeclass.inc"
 #include "block.inc"
+// the large-object bin arithmetic and the header views of the aligned / lloc / backend sections
+#define VERIF_SELECT_SIZE_T(u, ull) ((sizeof(size_t) == sizeof(u)) ? (u) : (ull))
+#define VERIF_LOG2(n) (63 - __builtin_clzll((unsigned long long)(n)))
+#include <climits>
+#include "locbins.inc"
+typedef struct BackRefIdx { uint32_t main; uint16_t largeObj : 1; uint16_t offset : 15; } BackRefIdx;
+typedef struct LargeMemoryBlock { intptr_t blockState[2]; void *pool; struct LargeMemoryBlock *next, *prev, *gPrev, *gNext; uintptr_t age; size_t objectSize; size_t unalignedSize; BackRefIdx backRefIdx; } LargeMemoryBlock;
+typedef struct LargeObjectHdr { LargeMemoryBlock *memoryBlock; BackRefIdx backRefIdx; } LargeObjectHdr;
+typedef struct GuardedSize { uintptr_t value; } GuardedSize;
+typedef struct FreeBlockV { GuardedSize myL, leftL; struct FreeBlockV *prev, *next, *nextToFree; size_t sizeTmp; int myBin; bool slabAligned, blockInBin; } FreeBlockV;
 }
+#define SAME_FIELD(R, E, f) static_assert(offsetof(R, f) == offsetof(E, f) && sizeof(((R*)0)->f) == sizeof(((E*)0)->f), "layout of " #f)
+static_assert(sizeof(rml::internal::BackRefIdx) == sizeof(ext::BackRefIdx), "BackRefIdx view");
+static_assert(sizeof(rml::internal::LargeMemoryBlock) == sizeof(ext::LargeMemoryBlock), "LargeMemoryBlock view");
+SAME_FIELD(rml::internal::LargeMemoryBlock, ext::LargeMemoryBlock, objectSize); SAME_FIELD(rml::internal::LargeMemoryBlock, ext::LargeMemoryBlock, unalignedSize); SAME_FIELD(rml::internal::LargeMemoryBlock, ext::LargeMemoryBlock, backRefIdx);
+static_assert(sizeof(rml::internal::LargeObjectHdr) == sizeof(ext::LargeObjectHdr), "LargeObjectHdr view");
+SAME_FIELD(rml::internal::LargeObjectHdr, ext::LargeObjectHdr, memoryBlock); SAME_FIELD(rml::internal::LargeObjectHdr, ext::LargeObjectHdr, backRefIdx);
+static_assert(sizeof(rml::internal::FreeBlock) == sizeof(ext::FreeBlockV) && sizeof(rml::internal::LastFreeBlock) == sizeof(ext::FreeBlockV) + sizeof(void*), "FreeBlock / LastFreeBlock view");
+static_assert(sizeof(rml::internal::GuardedSize) == sizeof(ext::GuardedSize), "GuardedSize view");
+static const size_t ext_minLargeSize = minLargeSize, ext_maxLargeSize = maxLargeSize, ext_maxHugeSize = maxHugeSize;
+static_assert(HugeBS_MaxSizeExp == 40 && HugeBS_MinSizeExp == 23 && HugeBS_StepFactorExp == 3 && LargeBS_NumBins == 1023 && HugeBS_NumBins == 136, "Log2<> constants");
+#undef minLargeSize
+#undef maxLargeSize
+#undef maxHugeSize
+static_assert(rml::internal::LargeObjectCache::maxHugeSize == ext_maxHugeSize && rml::internal::LargeObjectCache::maxLargeSize == ext_maxLargeSize && rml::internal::LargeObjectCache::minLargeSize == ext_minLargeSize, "large-object cache limits");
 int main() {
     unsigned long cases = 0; int bad = 0;
     for (unsigned s = 1; s <= 8128; ++s) {
@@ -46,6 +71,20 @@ int main() {
             void* r2 = ext::Block_findAllocatedObject((ext::Block*)buf2, buf2 + 16384 - off);
             ++cases;
             if (((char*)r1 - buf) != ((char*)r2 - buf2) && bad++ < 5) std::printf("MISMATCH findAllocatedObject os=%u off=%u\n", os, off);
+        }
+    }
+    // bin arithmetic of the large-object cache: extracted C vs the real functions (boundaries of every bin + a pseudo-random sample)
+    {
+        std::vector<size_t> v; unsigned long long x = 88172645463325252ULL;
+        for (size_t b = 8192; b <= (size_t)1 << 40; b += (b < (8u << 20) ? 8192 * 37 : b / 8)) for (long d = -2; d <= 2; ++d) v.push_back(b + d);
+        for (int sh = 13; sh <= 40; ++sh) for (long d = -1; d <= 1; ++d) v.push_back(((size_t)1 << sh) + d);
+        for (int i = 0; i < 20000; ++i) { x ^= x << 13; x ^= x >> 7; x ^= x << 17; v.push_back(8 + x % ((size_t)1 << (14 + i % 27))); }
+        for (size_t sz : v) {
+            if (sz < 8) continue;
+            size_t ra = rml::internal::LargeObjectCache::alignToBin(sz), ea = ext::LargeObjectCache_alignToBin(sz); ++cases;
+            if (ra != ea && bad++ < 5) std::printf("MISMATCH alignToBin(%zu): real %zu extracted %zu\n", sz, ra, ea);
+            if (ra >= 8192 && ra < ((size_t)1 << 40)) { int ri = rml::internal::LargeObjectCache::sizeToIdx(ra), ei = ext::LargeObjectCache_sizeToIdx(ra); ++cases;
+                if (ri != ei && bad++ < 5) std::printf("MISMATCH sizeToIdx(%zu): real %d extracted %d\n", ra, ri, ei); }
         }
     }
     std::printf("SAMPLE getIndex(100)=%u getObjectSize(100)=%u\n", ext::getIndex(100), ext::getObjectSize(100));
